@@ -238,7 +238,7 @@ pub fn run(ctx: &Ctx) {
     ctx.assume("counting rules of the timing report as stated in compute_timing_top_n: start points arrive at 0, Buf adds delay but no level, an asynchronous RAM read adds SramModel::access_delay(depth) and one level from its latest address bit, end points are FF D pins, output/inout bits and RAM write pins");
     ctx.assume("'critical-path depth' is read as: levels of the longest path to the reported (latest-arriving) end point; whether a deeper but faster end point exists is recorded as a class, not asserted");
     ctx.finish(
-        "translation_validation",
+        "exploration",
         "the netlists of the C19 cases (same generator): structure, driver bookkeeping, acyclicity, and area / timing reports recomputed for all four libraries; non-trivial = netlist has FFs and > 20 cells, or a RAM block; distinct by text + options",
     );
 }
